@@ -190,7 +190,7 @@ class CallEngine(Engine):
     return ginm.gen_plain(rng, 1)
 
   def gen(self, rng, tier):
-    regs = ginm.gen_regs(rng, lists=0.15, allow_req=self.allow_req)
+    regs = ginm.gen_regs(rng, lists=0.15, allow_req=self.allow_req, shapes=True)
     ops = []
     active = ginm.gen_scope(rng, 3)
     for _ in range(rng.randint(0, 12)):
@@ -217,6 +217,15 @@ class CallEngine(Engine):
         ops.append(['bindt', '/'.join(sc), sel, p, v])
     calls = [self.gen_call(rng, rng.choice(regs)) for _ in range(rng.randint(1, 4))]
     body = calls + [['curscope']]
+    if rng.random() < 0.5:
+      # re-bind under a prefix of the active scope AFTER the first calls, then call again
+      for _ in range(rng.randint(1, 3)):
+        c = rng.choice(regs)
+        names = ginm.sig_names(c['sig']) or ['a']
+        sc = active[:rng.randint(0, len(active))]
+        body.append(['bind', '/'.join(sc + [rng.choice(ginm.spellings(c['sel'], regs)) + '.' + rng.choice(names)]),
+                     self.gen_value(rng, regs)])
+      body += [self.gen_call(rng, rng.choice(regs)) for _ in range(rng.randint(1, 3))] + list(calls[:2])
     # enter `active` through a random mix of forms
     rest = list(active)
     chunks = []
